@@ -20,6 +20,8 @@ var argPool = []string{
 	"C:\\dir\\new", "\\d+\\t+", "a\\b\tc", "x\\y\nz\\", "\\\\n", "\\n\\t\\r\\\"", "a\\\"b\\nc", "\\", "\\\\",
 	// a sign in front: still one unquoted token
 	"+5", "+", "++x", "-1", "+a+b",
+	// characters that Unicode calls white space or format characters but YANG does not: part of an unquoted token
+	"m\u00a0s", "全角\u3000空白", "thin\u2009space", "nel\u0085x", "ls\u2028x", "zw\u200bx", "\ufeffbom", "\u00a0", "a\u2003b\u00a0c",
 }
 
 // GenGenericModule builds a module whose body consists of prefixed extension
